@@ -18,6 +18,14 @@
  * lock released.  coap_new_context(&addr) with an address that cannot be bound fails; a second
  * thread then makes an ordinary API call and must return (3 s watchdog).
  *
+ *   h_lock_stress wakeup
+ * A call from another thread must take effect although the I/O thread is blocked in
+ * coap_io_process(ctx, COAP_IO_WAIT): the library has to wake it (timerfd) every time, also after a
+ * timer was pending once and has expired.  A remote observer (plain UDP socket, this thread)
+ * registers on a NOTIFY_CON resource; coap_resource_notify_observers() #1 from this thread -> CON
+ * notification, ACKed; 2.5 s of silence (the retransmission deadline, <= 1.5 s, is history);
+ * coap_resource_notify_observers() #2 -> the notification must arrive (6 s watchdog).
+ *
  * output (stdout): one summary line  "stress ok ops=.. sent=.. responses=.. ..." or
  *                  "STUCK ..." lines followed by "stress FAILED".   exit code 0 / 3.
  */
@@ -32,6 +40,7 @@
 #include <unistd.h>
 #include <arpa/inet.h>
 #include <signal.h>
+#include <poll.h>
 
 #define MAXW 8
 #define STALL_S 6.0
@@ -392,6 +401,104 @@ static int watchdog(double until, int need_finished) {
   }
 }
 
+/* ---- wakeup scenario ---- */
+static atomic_ulong wk_io_returns, wk_gets;
+static void wk_get(coap_resource_t *r, coap_session_t *session, const coap_pdu_t *req,
+                   const coap_string_t *q, coap_pdu_t *resp) {
+  static const coap_fixed_point_t one_second = {1, 0};
+  (void)r;
+  (void)req;
+  (void)q;
+  coap_session_set_ack_timeout(session, one_second);   /* retransmission deadline <= 1.5 s */
+  atomic_fetch_add(&wk_gets, 1);
+  coap_pdu_set_code(resp, COAP_RESPONSE_CODE_CONTENT);
+  coap_add_data(resp, 2, (const uint8_t *)"hi");
+}
+static void *wk_io(void *arg) {
+  (void)arg;
+  for (;;) {
+    coap_io_process(ctx, COAP_IO_WAIT);
+    atomic_fetch_add(&wk_io_returns, 1);
+  }
+  return NULL;
+}
+/* wait up to ms for a 2.05 with token aa bb; ACK it when it is CON; 1 = seen */
+static int wk_expect(int sock, int ms) {
+  uint8_t buf[256];
+  double t_end = now_s() + ms / 1000.0;
+  while (now_s() < t_end) {
+    struct pollfd pfd = {sock, POLLIN, 0};
+    if (poll(&pfd, 1, 100) <= 0) continue;
+    int n = (int)recv(sock, buf, sizeof(buf), 0);
+    if (n >= 6 && buf[1] == 0x45 && (buf[0] & 0x0f) == 2 && buf[4] == 0xaa && buf[5] == 0xbb) {
+      if ((buf[0] & 0x30) == 0x00) {
+        uint8_t ack[4] = {0x60, 0x00, buf[2], buf[3]};
+        send(sock, ack, sizeof(ack), 0);
+      }
+      return 1;
+    }
+  }
+  return 0;
+}
+static int wakeup_fail(const char *what) {
+  printf("STUCK %s: I/O thread blocked in coap_io_process(ctx, COAP_IO_WAIT) (returned %lu times, GET handler "
+         "ran %lu times) although coap_resource_notify_observers() was called from another thread\n",
+         what, atomic_load(&wk_io_returns), atomic_load(&wk_gets));
+  dump_lock();
+  printf("stress FAILED stuck wakeup\n");
+  fflush(stdout);
+  _exit(3);
+}
+static int wakeup(void) {
+  static const uint8_t observe_get[] = {0x42, 0x01, 0x12, 0x34, 0xaa, 0xbb, 0x60, 0x53, 'o', 'b', 's'};
+  coap_startup();
+  coap_set_log_level(COAP_LOG_EMERG);
+  ctx = coap_new_context(NULL);
+  if (!ctx) { printf("stress FAILED no context\n"); return 2; }
+  coap_address_t bind;
+  coap_address_init(&bind);
+  bind.addr.sin.sin_family = AF_INET;
+  bind.addr.sin.sin_addr.s_addr = htonl(INADDR_LOOPBACK);
+  bind.addr.sin.sin_port = 0;
+  bind.size = sizeof(struct sockaddr_in);
+  coap_endpoint_t *ep = coap_new_endpoint(ctx, &bind, COAP_PROTO_UDP);
+  if (!ep) { printf("stress FAILED no endpoint\n"); return 2; }
+  coap_resource_t *r = coap_resource_init(coap_new_str_const((const uint8_t *)"obs", 3),
+                                          COAP_RESOURCE_FLAGS_RELEASE_URI | COAP_RESOURCE_FLAGS_NOTIFY_CON);
+  coap_register_request_handler(r, COAP_REQUEST_GET, wk_get);
+  coap_resource_set_get_observable(r, 1);
+  coap_add_resource(ctx, r);
+  int sock = socket(AF_INET, SOCK_DGRAM, 0);
+  struct sockaddr_in to = ep->bind_addr.addr.sin;
+  if (sock < 0 || connect(sock, (struct sockaddr *)&to, sizeof(to)) < 0) { printf("stress FAILED socket\n"); return 2; }
+  pthread_t th;
+  pthread_create(&th, NULL, wk_io, NULL);
+  usleep(200 * 1000);
+  /* 1. register (retry the datagram a few times: setup must not be the flaky part) */
+  int reg = 0;
+  for (int k = 0; k < 5 && !reg; k++) {
+    send(sock, observe_get, sizeof(observe_get), 0);
+    reg = wk_expect(sock, 2000);
+  }
+  if (!reg) { printf("wakeup ok skipped (observation could not be registered)\n"); _exit(0); }
+  usleep(300 * 1000);
+  /* 2. notification #1 from this (non I/O) thread: a retransmission timer is pending, then ACKed */
+  coap_resource_notify_observers(r, NULL);
+  if (!wk_expect(sock, 6000)) return wakeup_fail("notify #1 never delivered");
+  /* 3. silence until that timer's deadline is in the past */
+  usleep(2500 * 1000);
+  /* 4. notification #2 */
+  coap_resource_notify_observers(r, NULL);
+  if (!wk_expect(sock, 6000)) return wakeup_fail("notify #2 never delivered (6 s)");
+  /* 5. once more after another expired deadline */
+  usleep(2000 * 1000);
+  coap_resource_notify_observers(r, NULL);
+  if (!wk_expect(sock, 6000)) return wakeup_fail("notify #3 never delivered (6 s)");
+  printf("wakeup ok notifications=3 io_returns=%lu gets=%lu\n", atomic_load(&wk_io_returns), atomic_load(&wk_gets));
+  fflush(stdout);
+  _exit(0);                /* the I/O thread sits in COAP_IO_WAIT: no orderly shutdown needed */
+}
+
 static atomic_int ep_done;
 static void *errpaths_other(void *arg) {
   (void)arg;
@@ -436,6 +543,7 @@ static int errpaths(void) {
 
 int main(int argc, char **argv) {
   if (argc > 1 && strcmp(argv[1], "errpaths") == 0) return errpaths();
+  if (argc > 1 && strcmp(argv[1], "wakeup") == 0) return wakeup();
   double secs = argc > 1 ? atof(argv[1]) : 5.0;
   nworkers = argc > 2 ? atoi(argv[2]) : 4;
   unsigned seed = argc > 3 ? (unsigned)atoi(argv[3]) : 1;
